@@ -80,7 +80,7 @@ func main() {
 		seed, _ := strconv.ParseInt(os.Args[4], 10, 64)
 		os.Exit(freeMain(os.Args[2], reps, seed))
 	case "bases":
-		for _, b := range []string{"E", "CH", "CC", "SP", "ML", "MS", "SC", "HO", "LCS", "LCM", "FL", "FL2"} {
+		for _, b := range []string{"E", "CH", "CC", "SP", "ML", "MS", "SC", "HO", "LCS", "LCM", "FL", "FL2", "FL3"} {
 			base, err := explore.GetBase(b, cfgByName("BIGC"), 0)
 			if err != nil {
 				fmt.Println(b, "ERROR", err)
